@@ -580,7 +580,7 @@ Proof.
     pose proof (ideal_join (s_env w1) (l_view (s_life w2)) (eids_of (l_entities (s_life w2))) (s_hs w2) jk jms) as J1.
     pose proof (ideal_join (s_env w2) (l_view (s_life w2)) (eids_of (l_entities (s_life w2))) (s_hs w2) jk jms) as J2.
     destruct (env_join (s_env w1) _ _ _ jk jms) as [e1 o1]. destruct (env_join (s_env w2) _ _ _ jk jms) as [e2 o2].
-    cbn [fst snd] in *. subst o2. split; [reflexivity|]. apply SW_env_upd; auto; congruence.
+    cbn [fst snd] in *. subst o2. split; [apply wout_sim_refl|]. apply SW_env_upd; auto; congruence.
   - rewrite Hs. destruct (env_csop_rel (s_env w1) (s_env w2) (s_hs w2) cso E) as [X1 X2].
     pose proof (ideal_csop (s_env w1) (s_hs w2) cso) as J1. pose proof (ideal_csop (s_env w2) (s_hs w2) cso) as J2.
     destruct (env_csop (s_env w1) _ cso) as [e1 o1]. destruct (env_csop (s_env w2) _ cso) as [e2 o2].
